@@ -148,6 +148,7 @@ type CommitEvent struct {
 	Step    int
 	Clock   int64
 	Owners  []string
+	SubClocks []int64 // clock at which each submission was made (the coroutine's deciding step)
 	Subs    []*t_aio.Submission
 	Before  *Dump
 	After   *Dump
@@ -182,6 +183,7 @@ type RouteEvent struct {
 
 type Monitor interface {
 	OnCommit(w *World, e *CommitEvent)
+	OnSubmit(w *World, r *Req)
 	OnResponse(w *World, r *Req)
 	OnSend(w *World, e *SendEvent)
 	OnRoute(w *World, e *RouteEvent)
@@ -198,6 +200,7 @@ type BaseMonitor struct{}
 
 func (BaseMonitor) OnCommit(*World, *CommitEvent) {}
 func (BaseMonitor) OnResponse(*World, *Req)       {}
+func (BaseMonitor) OnSubmit(*World, *Req)         {}
 func (BaseMonitor) OnSend(*World, *SendEvent)     {}
 func (BaseMonitor) OnRoute(*World, *RouteEvent)   {}
 func (BaseMonitor) OnCrash(*World)                {}
@@ -543,6 +546,9 @@ func (w *World) Submit(client int, idx int, req *t_api.Request) *Req {
 	w.Reqs = append(w.Reqs, r)
 	gen := w.Gen
 	w.logf("submit %s %s", r.Id, req)
+	for _, m := range w.Monitors {
+		m.OnSubmit(w, r)
+	}
 	w.api.EnqueueSQE(&bus.SQE[t_api.Request, t_api.Response]{
 		Id:         r.Id,
 		Submission: req,
@@ -690,6 +696,7 @@ func (w *World) ExecBatch(idxs []int, o Outcome) {
 	for i, p := range ps {
 		sqes[i] = p.SQE
 		ev.Owners = append(ev.Owners, p.Owner)
+		ev.SubClocks = append(ev.SubClocks, p.Clock)
 		ev.Subs = append(ev.Subs, p.SQE.Submission)
 	}
 	cqes := w.store.Process(sqes)
@@ -855,6 +862,9 @@ func (w *World) Key(withResponses bool) string {
 	}
 	for _, r := range w.Reqs {
 		fmt.Fprintf(&b, "req %s done=%v lost=%v", r.Id, r.Done, r.Lost)
+		if !r.Done && !r.Lost {
+			fmt.Fprintf(&b, " q=%s", short(r.Req.String()))
+		}
 		if withResponses && r.Done {
 			fmt.Fprintf(&b, " res=%s", short(RenderResponse(r)))
 		}
